@@ -414,3 +414,39 @@ package wire
 //@ loop (tp *TransportParameters) PopulateFromUQUIC #0
 //@   invariant tp.InitialSourceConnectionID.l <= 20
 //@   modifies tp.*, quicparams[*], elems(uint8)
+
+// ---------------- transport parameter decoding (C08) ----------------
+//@ extern slices.SortFunc
+//@   ensures len(x) == old(len(x))
+//@   modifies x[*]
+
+//@ func (p *TransportParameters) readNumericTransportParameter
+//@   props C08
+//@   arith bv
+//@   requires p != nil
+//@   ensures [length-consistent] implies(result == nil, len(b) >= expectedLen && expectedLen >= 1)
+//@   modifies p.*
+
+//@ func (p *TransportParameters) readPreferredAddress
+//@   trusted fixed-layout decoder of preferred_address (netip values are external); assumed contract: success only with the announced length
+//@   ensures implies(result == nil, len(b) >= expectedLen && expectedLen >= 0)
+//@   modifies p.*
+
+//@ func (p *TransportParameters) unmarshal
+//@   props C08
+//@   arith bv
+//@   requires p != nil && len(b) <= 1099511627776
+//@   ensures [duplicates-rejected] implies(result == nil, forall(k, 0, len(parameterIDs) - 1, parameterIDs[k] != parameterIDs[k+1]))
+//@   ensures [mandatory-present] implies(result == nil && !fromSessionTicket, readInitialSourceConnectionID && (sentBy != protocol.PerspectiveServer || readOriginalDestinationConnectionID))
+//@   modifies p.*
+//@ loop (p *TransportParameters) unmarshal #0
+//@   invariant isfresh(parameterIDs) && len(b) <= 1099511627776
+//@   modifies p.*, parameterIDs[*]
+//@ loop (p *TransportParameters) unmarshal #1
+//@   invariant 0 <= i && isfresh(parameterIDs)
+//@   invariant forall(k, 0, i, parameterIDs[k] != parameterIDs[k+1])
+//@   modifies nothing
+
+//@ func (f *StreamFrame) PutBack
+//@   trusted returns the frame to the sync.Pool (pool state is not modelled)
+//@   modifies nothing
